@@ -15,7 +15,8 @@ BUDGET_S = {"quick": 110, "thorough": 800}
 RULE = (
     "Hypothesis draws a scenario (S1 stage+transfer into a LocalHashFileDB with state, hardlink on/off; "
     "S2 index build->md5->save of nested directories with state, hardlink on/off (odb.add with the existence "
-    "filter on); S3 store->store transfer local cache -> "
+    "filter on; optionally a sub-directory of the data reached through a second filesystem object, so that one "
+    "cache is fed in two batches); S3 store->store transfer local cache -> "
     "local remote, closed or expanded request, with/without destination index; S4 upload staging "
     "build(upload=True)+transfer) and a small tree (2-6 files, nested, duplicates, empty file). Run 0 "
     "(forked child, no kill) counts the N filesystem-mutating audit events (open-for-write, rename/replace, "
@@ -54,6 +55,8 @@ def cases(draw):
         "bulk": 0,
         # transfers / adds run with verification on (target store configured verify=True and verify=True passed)
         "verify": draw(st.sampled_from([False, False, True])),
+        # S2 only: a sub-directory of the data is mounted through a second filesystem object
+        "two_fs": draw(st.sampled_from([False, False, True])),
     }
 
 
@@ -88,6 +91,16 @@ def operation(case, run):
         elif sc == "S2":
             odb = LocalHashFileDB(fs, os.path.join(run, "cache"), state=state, verify=vf or None)
             idx = ibuild(ws, fs)
+            if case.get("two_fs"):
+                # the files below the first sub-directory of the data are reached through a SECOND filesystem
+                # object (an imported / separately mounted sub-directory): save() groups its work per (cache,
+                # filesystem), so one cache is fed in two batches
+                from dvc_data.index import FileStorage
+
+                sub = sorted(k for k, v in case["tree"].items() if isinstance(v, dict))
+                if sub:
+                    idx.storage_map.add_data(FileStorage(("data", sub[0]), LocalFileSystem(),
+                                                         os.path.join(ws, "data", sub[0])))
             idx = md5(idx, state=state)
             # hardlink=True reaches odb.add(..., hardlink=True) with the existence filter on (as `dvc add` with
             # a hardlink cache type does); absent key in older cases = copy
@@ -459,6 +472,8 @@ def run_case(case, ctx):  # noqa: C901
         if case["scenario"] in ("S1", "S2") and case["hardlink"]:
             cl.append("hardlink")
             cl.append("hardlink:" + case["scenario"])
+        if case["scenario"] == "S2" and case.get("two_fs") and any(isinstance(v, dict) for v in case["tree"].values()):
+            cl.append("S2:data-on-two-filesystem-objects")
         if case.get("pre"):
             cl.append("target-prepopulated")
         if case.get("verify"):
@@ -482,6 +497,8 @@ CANON = [
     {"scenario": "S1", "tree": _T, "hardlink": True, "index": False, "form": "closed", "pre": True, "tree2": None},
     {"scenario": "S2", "tree": _T, "hardlink": False, "index": False, "form": "closed", "pre": False, "tree2": None},
     {"scenario": "S2", "tree": _U, "hardlink": True, "index": False, "form": "closed", "pre": False, "tree2": None},
+    {"scenario": "S2", "tree": _U, "hardlink": False, "index": False, "form": "closed", "pre": False, "tree2": None,
+     "two_fs": True},
     {"scenario": "S2", "tree": {"d": {"d": {"x": "p:crlf"}}, "y": "p:hello"}, "hardlink": False, "index": False,
      "form": "closed", "pre": True, "tree2": None},
     {"scenario": "S3", "tree": _T, "hardlink": False, "index": True, "form": "expand", "pre": False,
